@@ -265,6 +265,7 @@ Proof.
   unfold process_downstream_ack.
   destruct (p_len (u_out u) =? 0); [reflexivity|].
   destruct (negb _); [reflexivity|].
+  destruct (p_sentlen (u_out u) =? 0); [reflexivity|].
   match goal with |- context [if ?c then _ else _] => destruct c end; [|reflexivity].
   rewrite okey_get_from_outpacketq. reflexivity.
 Qed.
